@@ -119,7 +119,8 @@ type vcConnRec struct {
 	maxD  int32
 	ncb   int // registered close callbacks
 	// scenario data
-	Data interface{}
+	Data       interface{}
+	acceptedAt int64
 	done chan struct{} // closed when the last (outermost-registered) close callback ran
 	once sync.Once
 }
@@ -458,6 +459,7 @@ func TestVerifConn(t *testing.T) {
 	}
 	vcInstallHooks()
 	Initialize()
+	vfOpenOut() // before any trial lowers the descriptor limit
 
 	sigs := map[string]int{}
 	stats := map[string]int{}
